@@ -485,7 +485,7 @@ def check_exports(case, ctx):
     os.makedirs(base, exist_ok=True)
     tmp = tempfile.mkdtemp(prefix="c15-", dir=base)
     try:
-        if len(case["shapes"]) % 2:
+        if case["shapes"][0]["nv"] % 2:
             objs2 = _fresh(case)
             target2 = objs2[0] if len(objs2) == 1 else multi.SurfaceContainer(*objs2)
         else:
